@@ -9,7 +9,7 @@ from ..dataflow import Defs, roots
 from ..model import FuncInfo, Module, body_walk, const_value, dotted, full_walk, idents_in, norm, unparse
 from ..namedeps import ALL, VARARGS, name_deps, params_of
 from ..report import VERIF, RuleResult
-from .common import callgraph, cfg_of, enclosing_function, need, site
+from .common import callgraph, cfg_index, cfg_of, enclosing_function, nearest_def, need, site
 
 PROP = "C06"
 
@@ -355,7 +355,127 @@ def r06_6(ctx):
     return rr
 
 
-RULES = [r06_1, r06_2, r06_3, r06_4, r06_5, r06_6]
+def r06_7(ctx):
+    rr = RuleResult("R06.7", "COVER", "a rewrite that rebuilds a node with a user-pinned name operand resets that operand whenever it changes any other operand", min_instances=2)
+    repo = ctx.repo
+    from .. import namedeps as _nd
+
+    _nd.CONDITIONAL_PINS_SEEN.clear()
+    for c in repo.expr_classes():
+        name_deps(repo, c)
+    pins = {}
+    for cn, _member, q in _nd.CONDITIONAL_PINS_SEEN:
+        pins.setdefault(cn, set()).add(q)
+    need(pins, "no conditional pin discovered (namedeps lost its anchors)")
+    for c in repo.expr_classes():
+        qs = set()
+        for k in repo.mro(c):
+            if not isinstance(k, str) and k.name in pins:
+                qs |= pins[k.name]
+        if not qs:
+            continue
+        P = params_of(repo, c)
+        for mf in c.methods.values():
+            for n in body_walk(mf.node):
+                if not (isinstance(n, ast.Call) and isinstance(n.func, ast.Attribute) and n.func.attr == "substitute_parameters" and unparse(n.func.value) == "self" and n.args):
+                    continue
+                arg = n.args[0]
+                if isinstance(arg, ast.Name):
+                    ds = Defs(mf.node).defs.get(arg.id, [])
+                    arg = ds[-1] if len(ds) == 1 else arg
+                cst = site(mf, n)[:160]
+                if not isinstance(arg, ast.Dict):
+                    rr.inst(cst, keys=None)
+                    ctx.finding(rr, cst, f"{c.name}.{mf.name} rebuilds the node through substitute_parameters with a mapping the checker cannot read; the class has user-pinned name operand(s) {sorted(qs)}", func=mf, node=n)
+                    continue
+                keys = {const_value(k) for k in arg.keys if k is not None}
+                rr.inst(cst, keys=sorted(str(k) for k in keys), pins=sorted(qs))
+                changed = {k for k in keys if k in P} - qs
+                missing = [q for q in sorted(qs) if q in P and q not in keys]
+                if changed and missing:
+                    ctx.finding(
+                        rr, cst,
+                        f"{c.name}.{mf.name} substitutes {sorted(changed)} but keeps the user-pinned name operand {missing}: the rebuilt node has other content under the SAME name, "
+                        f"so the singleton registry (and every name-keyed cache) hands back the original node in its place",
+                        func=mf, node=n,
+                    )
+    return rr
+
+
+def _whole_names(expr):
+    """Names whose whole value flows into ``expr``: occurrences that are not merely the base of a subscript / attribute
+    projection and not inside a lossy wrapper (len, type, bool ...)."""
+    lossy = set()
+    for n in ast.walk(expr):
+        if isinstance(n, ast.Call) and isinstance(n.func, ast.Name) and n.func.id in ("len", "type", "bool", "id", "hash", "isinstance", "min", "max", "any", "all"):
+            for a in n.args:
+                for s in ast.walk(a):
+                    lossy.add(id(s))
+        if isinstance(n, ast.Subscript):
+            for s in ast.walk(n.value):
+                lossy.add(id(s))
+        if isinstance(n, ast.Attribute):
+            for s in ast.walk(n.value):
+                lossy.add(id(s))
+    return {n.id for n in ast.walk(expr) if isinstance(n, ast.Name) and isinstance(n.ctx, ast.Load) and id(n) not in lossy}
+
+
+def r06_8(ctx):
+    rr = RuleResult("R06.8", "COVER", "a graph-internal literal stored under a content-addressed key (prefix + tokenize(...)) is covered by that token", min_instances=2)
+    repo = ctx.repo
+    for f in repo.all_functions():
+        calls = [n for n in body_walk(f.node) if isinstance(n, ast.Call) and (dotted(n.func) or "").rsplit(".", 1)[-1] == "DataNode" and len(n.args) >= 2]
+        if not calls:
+            continue
+        defs = Defs(f.node)
+        for n in calls:
+            key, val = n.args[0], n.args[1]
+            kexprs = [key]
+            if isinstance(key, ast.Name):
+                # the definition that reaches this statement (nearest preceding assignment in the enclosing blocks)
+                cfg = cfg_of(ctx, f)
+                stmt = cfg_index(ctx, f).get(id(n))
+                nd = nearest_def(cfg, stmt, key.id) if stmt is not None else None
+                kexprs = [nd.value] if nd is not None and getattr(nd, "value", None) is not None else (defs.defs.get(key.id, []) or [key])
+            for ke in kexprs:
+                # the key expression together with the (reaching) definitions of the locals it is built from
+                closure, frontier, seen_names = [ke], [ke], set()
+                for _ in range(3):
+                    nxt = []
+                    for e in frontier:
+                        for nm in [x.id for x in ast.walk(e) if isinstance(x, ast.Name) and x.id in f.local_names and x.id not in seen_names]:
+                            seen_names.add(nm)
+                            d = nearest_def(cfg_of(ctx, f), cfg_index(ctx, f).get(id(n)), nm) if cfg_index(ctx, f).get(id(n)) is not None else None
+                            if d is not None and getattr(d, "value", None) is not None:
+                                nxt.append(d.value)
+                    closure += nxt
+                    frontier = nxt
+                toks = [c for e in closure for c in ast.walk(e) if isinstance(c, ast.Call) and (dotted(c.func) or "").rsplit(".", 1)[-1] in ("tokenize", "_tokenize_deterministic")]
+                node_scoped = any(isinstance(x, ast.Attribute) and x.attr in ("_name", "name") for e in closure for x in ast.walk(e))
+                cst = site(f, n)[:170]
+                if not toks:
+                    rr.inst(cst, key=unparse(ke)[:60], content_addressed=False, node_scoped=node_scoped)
+                    if not node_scoped:
+                        ctx.finding(rr, cst, f"the literal {unparse(val)[:50]} is stored under {unparse(ke)[:50]}, which is neither scoped by the node name nor a content token: graphs merged across collections may collide on it", func=f, node=n)
+                    continue
+                covered = set()
+                for t in toks:
+                    for a in list(t.args) + [k.value for k in t.keywords]:
+                        covered |= _whole_names(a)
+                used = {x for x in _whole_names(val) if x in f.local_names}
+                lacking = sorted(used - covered)
+                rr.inst(cst, key=unparse(ke)[:80], payload=unparse(val)[:60], token_covers=sorted(covered), payload_uses=sorted(used))
+                if lacking and not node_scoped:
+                    ctx.finding(
+                        rr, cst,
+                        f"the content-addressed key {unparse(ke)[:70]} does not cover {lacking}, which the stored literal {unparse(val)[:50]} uses whole: two different literals can get the same key, "
+                        f"and merging graphs (dask.compute of several collections) silently keeps one of them",
+                        func=f, node=n,
+                    )
+    return rr
+
+
+RULES = [r06_1, r06_2, r06_3, r06_4, r06_5, r06_6, r06_7, r06_8]
 
 LEVEL_TEXT = (
     "Static decision of the naming discipline that makes de-duplication by name sound: a name-dependency closure "
